@@ -1098,6 +1098,7 @@ class Frame(registering.StoriedRegistrar):
         """
         over = self.over
         under = self
+        seen = [self] #frames already visited on this climb
 
         while over: #not beyond top
             if not isinstance(over, Frame): #over is name of frame not ref so resolve
@@ -1107,7 +1108,7 @@ class Frame(registering.StoriedRegistrar):
                 except KeyError:
                     raise excepting.ResolveError("Bad over link in outline", self.name, name)
 
-                if over == self: #check for loop
+                if over in seen: #check for loop anywhere on the climb not just back to self
                     raise excepting.ResolveError("Outline overs create loop", self.name, under.name)
 
                 #attach under to over
@@ -1122,9 +1123,10 @@ class Frame(registering.StoriedRegistrar):
                 under.over = over #assign valid over ref
 
             else: #over is valid frame reference so don't need to resolve
-                if over == self: #check for loop
+                if over in seen: #check for loop anywhere on the climb not just back to self
                     raise excepting.ResolveError("Outline overs create loop", self.name, under.name)
 
+            seen.append(over)
             under = over
             over = over.over #rise one level
 
